@@ -286,29 +286,36 @@ pub fn run_one_child(prop: &str, profile: &str, path: &Path, stall_secs: u64) ->
         .spawn()
         .map_err(|e| format!("spawn: {e}"))?;
     let stdout = child.stdout.take().unwrap();
-    let (tx, rx) = mpsc::channel();
+    let (tx, rx) = mpsc::channel::<Option<String>>();
     std::thread::spawn(move || {
-        let mut lines = Vec::new();
         for l in BufReader::new(stdout).lines().map_while(Result::ok) {
-            lines.push(l);
+            let _ = tx.send(Some(l));
         }
-        let _ = tx.send(lines);
+        let _ = tx.send(None);
     });
-    let start = Instant::now();
-    let lines = loop {
+    // every line counts as a heartbeat (long cases print "H ..." lines while they work)
+    let mut last_beat = Instant::now();
+    let mut lines = Vec::new();
+    loop {
         match rx.recv_timeout(Duration::from_millis(200)) {
-            Ok(l) => break l,
+            Ok(Some(l)) => {
+                last_beat = Instant::now();
+                if !l.starts_with("H ") {
+                    lines.push(l);
+                }
+            }
+            Ok(None) => break,
             Err(mpsc::RecvTimeoutError::Timeout) => {
-                if start.elapsed() > Duration::from_secs(stall_secs) {
+                if last_beat.elapsed() > Duration::from_secs(stall_secs) {
                     let top = gdb_top_frame(child.id());
                     let _ = child.kill();
                     let _ = child.wait();
                     return Ok(vec![Violation::new(prop, "process_stall", format!("top={top}"), format!("no result within {stall_secs}s"))]);
                 }
             }
-            Err(_) => break Vec::new(),
+            Err(_) => break,
         }
-    };
+    }
     let status = child.wait().map_err(|e| format!("wait: {e}"))?;
     for l in &lines {
         if let Some(js) = l.strip_prefix("R ") {
